@@ -281,6 +281,12 @@ VALUES = [None, True, False, 0, 1, -1, 2, 2.0, 1e308, 10 ** 20, '', ' ', 'x',
           '@x', '`x`', '%x', '*x', '&x', '!x', '|', '>', '\t', '\n',
           'a\nb', 'line1\n  line2: x']
 
+EXPR_DICT_KEYS = ('input', 'publish', 'publish-on-error', 'publish-on-skip',
+                  'vars', 'output', 'base-input', 'branch', 'global',
+                  'atomic')
+BROKEN_EXPRS = ['<% 1 + %>', '<% * %>', '{{ 1 + }}', '<% $.a. %>',
+                'x <% ) %> y']
+
 NAMES = ['', ' ', 'a b', 'a.b', 'a-b', 'a_b', 'noop', 'fail', 'succeed',
          'pause', 'version', 'name', 'tasks', 'workflows', 'actions', 'input',
          'x' * 260, u'é中', 0, 1, 2.5, True, None, '<% $.x %>',
@@ -323,8 +329,31 @@ def mutate_once(D, doc):
     path = ps[D.int(0, len(ps) - 1)]
     par, key = _parent(doc, path)
     op = D.choice(['replace', 'replace', 'delete', 'addkey', 'addkey',
-                   'rename', 'copy', 'wrap', 'expr', 'retype'])
+                   'rename', 'copy', 'wrap', 'expr', 'retype', 'exprdict'])
     cur = par[key]
+    if op == 'exprdict':
+        # an expression-bearing mapping gets a value that is not a string
+        # and a syntactically broken expression, in a drawn order, among
+        # whatever it already holds
+        cands = [p_ for p_ in ps if p_ and p_[-1] in EXPR_DICT_KEYS
+                 and isinstance(get(doc, p_), dict)]
+        if not cands:
+            op = 'replace'
+        else:
+            tp = cands[D.int(0, len(cands) - 1)]
+            d = get(doc, tp)
+            extra = [('zz_plain', copy.deepcopy(D.choice(
+                [1, True, None, [1, 2], {'a': 1}, 2.5]))),
+                ('zz_broken', D.choice(BROKEN_EXPRS))]
+            if D.bool(0.5):
+                extra.reverse()
+            items = list(d.items())
+            pos = D.int(0, len(items))
+            items[pos:pos] = extra
+            d.clear()
+            for k, v in items:
+                d[k] = v
+            return 'exprdict@%s' % '/'.join(str(x) for x in tp)
     if op == 'replace':
         par[key] = copy.deepcopy(D.choice(VALUES))
     elif op == 'delete':
